@@ -758,7 +758,8 @@ fn convert_rpx_in_block(
                     }
                     Token::Function(func) => {
                         let func: &str = func;
-                        let config = if is_math_function(func) {
+                        // a function nested in a calc sum (`var(--x, 1px + 2px)`) is still part of the sum
+                        let config = if in_calc || is_math_function(func) {
                             Some(ConvertOptions { in_calc: true })
                         } else {
                             None
